@@ -226,7 +226,9 @@ def _try_remove_group(group_el, push_opacity=True):
         children = list(group_el)
         if group_el.getparent() is not None:
             _replace_el(group_el, list(group_el))
-        if push_opacity:
+        # nothing to push for an opaque group; writing opacity="1" on the children
+        # would make a meaningless wrapper <g> visible in elements we pass through
+        if push_opacity and opacity != 1.0:
             for child in children:
                 if _is_redundant(child.tag):
                     continue
